@@ -525,6 +525,17 @@ def o_c05(rec, table=None):
     else:
         e_count = n_tap
     info["E"] = e_count
+    # no user function is called more often than the problem is evaluated:
+    # nfev counts EVERYTHING the run asked of the user
+    for j in range(len(b.nl)):
+        cj = sum(1 for e in rec.run.log if e["t"] == "con" and e["j"] == j)
+        if cj > n_tap:
+            out.append(V("constraint_calls_exceed_evaluations",
+                         f"constraint function {j} was called {cj} times "
+                         f"but the problem was evaluated at {n_tap} points "
+                         f"(nfev={res.nfev})", mechanism="uncounted_calls",
+                         calls=cj, evals=n_tap))
+            break
     maxfev = o.get("maxfev")
     maxiter = o.get("maxiter")
     if maxfev is not None and e_count > maxfev:
